@@ -94,13 +94,16 @@ Lemma cnt_inv_zeros : forall n, cnt_inv (zeros DInt n (VInt 0)) 0.
 Proof. intros; split; [apply nonneg_zeros | apply sum_int_zeros]. Qed.
 
 Lemma cnt_inv_incr : forall d x k, cnt_inv d x -> 0 <= k < zlen d ->
-  cnt_inv (updZ d k (VInt (to_int (eval_binop Add (nthZ d k) (VInt 1))))) (x + 1).
+  cnt_inv (updZ d k (VInt (to_int (nthZ d k) + 1))) (x + 1).
 Proof.
-  intros d x k [N S] Hk. rewrite incr_cell by assumption.
+  intros d x k [N S] Hk.
   destruct (nonneg_nth d k N) as [z [E Hz]]. split.
   - apply nonneg_updZ; [assumption | rewrite E; simpl; lia].
   - rewrite sum_int_updZ by assumption. simpl. lia.
 Qed.
+
+Lemma nonneg_nth_int : forall d k, nonneg_ints d -> 0 <= to_int (nthZ d k).
+Proof. intros d k H. destruct (nonneg_nth d k H) as [z [-> Hz]]. exact Hz. Qed.
 
 (* ---------- prefix sums ---------- *)
 Definition psum (d : list sval) (k : Z) : Z := sum_int (pyslice d 0 k).
@@ -226,3 +229,61 @@ Proof.
   apply H in I. apply andb_prop in I. destruct I as [A B].
   apply Z.leb_le in A. apply Z.ltb_lt in B. lia.
 Qed.
+
+Lemma zlen_pyslice : forall {A} (l : list A) lo hi,
+  zlen (pyslice l lo hi) = Z.max 0 (Z.min (norm_bound (zlen l) hi - norm_bound (zlen l) lo)
+                                          (zlen l - norm_bound (zlen l) lo)).
+Proof.
+  intros. unfold pyslice, slice. set (n := zlen l). unfold zlen.
+  rewrite firstn_length, skipn_length.
+  assert (0 <= norm_bound n lo <= n) by (unfold norm_bound; pose proof (zlen_nonneg l); lia).
+  assert (0 <= norm_bound n hi <= n) by (unfold norm_bound; pose proof (zlen_nonneg l); lia).
+  unfold n, zlen in *. lia.
+Qed.
+Lemma zlen_pyslice_eq : forall {A B} (a : list A) (b : list B) lo hi,
+  zlen a = zlen b -> zlen (pyslice a lo hi) = zlen (pyslice b lo hi).
+Proof. intros. rewrite !zlen_pyslice, H. reflexivity. Qed.
+
+(* ---------- leaf tactic for goals that mention cells and prefix sums of integer arrays ---------- *)
+Ltac split_cnt_inv :=
+  repeat match goal with
+         | H : cnt_inv _ _ |- _ => let N := fresh "N" in let S := fresh "S" in destruct H as [N S]
+         | H : ix_inv _ _ _ |- _ => let A := fresh "A" in let B := fresh "B" in destruct H as [A B]
+         end.
+
+Ltac pose_cell d k N :=
+  lazymatch goal with
+  | _ : 0 <= to_int (nthZ d k) |- _ => fail
+  | _ => pose proof (nonneg_nth_int d k N); pose proof (psum_succ d k);
+         pose proof (psum_succ_le d k N)
+  end.
+Ltac pose_psum d k N :=
+  lazymatch goal with
+  | _ : 0 <= k <= zlen d -> 0 <= psum d k |- _ => fail
+  | _ => pose proof (psum_nonneg d k N); pose proof (psum_le d k N)
+  end.
+
+Ltac fold_psum :=
+  repeat match goal with
+         | |- context [sum_int (pyslice ?d 0 ?k)] => change (sum_int (pyslice d 0 k)) with (psum d k)
+         | H : context [sum_int (pyslice ?d 0 ?k)] |- _ =>
+             change (sum_int (pyslice d 0 k)) with (psum d k) in H
+         end.
+
+Ltac arr_facts :=
+  split_cnt_inv; fold_psum;
+  repeat match goal with
+         | N : nonneg_ints ?d |- context [nthZ ?d ?k] => pose_cell d k N
+         | N : nonneg_ints ?d, _ : context [nthZ ?d ?k] |- _ => pose_cell d k N
+         | N : nonneg_ints ?d |- context [psum ?d ?k] => pose_psum d k N
+         | N : nonneg_ints ?d, _ : context [psum ?d ?k] |- _ => pose_psum d k N
+         end;
+  repeat match goal with
+         | N : nonneg_ints ?d |- _ =>
+             lazymatch goal with
+             | _ : psum d 0 = 0 |- _ => fail
+             | _ => pose proof (psum_0 d); pose proof (psum_all d); pose proof (nonneg_sum d N)
+             end
+         end.
+
+Ltac arr_arith := arr_facts; autorewrite with zlen in *; lia.
